@@ -106,9 +106,25 @@ static void mix_macro_check(void)
         if (a != ra || b != rb || c != rc) FAIL("SPIFHASH_JENKINS_MIX", "model:value", "mix macro", "as the body of an if whose condition is %s the macro left (0x%08x,0x%08x,0x%08x), the published mix gives (0x%08x,0x%08x,0x%08x)", on ? "true" : "false", a, b, c, ra, rb, rc);
     }
 }
+/* calls by name with a length that is an integer constant expression (sizeof, a literal) and with literal seeds: what the compiler may specialise is still the published function */
+static void named_calls_check(void)
+{
+    static int done; if (done) return; done = 1;
+    static const uint8_t K[16] = { 0x01, 0x80, 0xff, 0x00, 0x7f, 0x10, 0xee, 0x33, 0x42, 0x99, 0xa5, 0x5a, 0x0f, 0xf0, 0x11, 0xfe };
+    uint8_t *k = mc_heapmem(K, 16);
+#define NC1(fn, ref, LEN, SEED) do { uint32_t g_ = fn(k, LEN, SEED), e_ = ref(K, LEN, SEED); if (g_ != e_) FAIL(#fn, "model:value", "constant length", #fn "(key, " #LEN ", " #SEED ") called by name gives 0x%08x, reference 0x%08x", g_, e_); } while (0)
+#define NCL(fn, ref, SEED) do { NC1(fn, ref, 0, SEED); NC1(fn, ref, 1, SEED); NC1(fn, ref, 2, SEED); NC1(fn, ref, 3, SEED); NC1(fn, ref, 4, SEED); NC1(fn, ref, 5, SEED); NC1(fn, ref, 7, SEED); NC1(fn, ref, 8, SEED); NC1(fn, ref, 9, SEED); \
+                                NC1(fn, ref, 11, SEED); NC1(fn, ref, 12, SEED); NC1(fn, ref, 13, SEED); NC1(fn, ref, 16, SEED); NC1(fn, ref, sizeof(uint32_t), SEED); NC1(fn, ref, sizeof(uint64_t), SEED); NC1(fn, ref, sizeof K, SEED); } while (0)
+#define NCS(fn, ref) do { NCL(fn, ref, 0); NCL(fn, ref, 1); NCL(fn, ref, 0xf721b64du); NCL(fn, ref, 0xffffffffu); } while (0)
+    NCS(spifhash_jenkins, ref_lookup2); NCS(spifhash_jenkinsLE, ref_lookup2); NCS(spifhash_rotating, ref_rotating); NCS(spifhash_one_at_a_time, ref_oaat); NCS(spifhash_fnv, ref_fnv1a);
+    { uint32_t w[4]; memcpy(w, K, 16);
+#define NW1(LEN, SEED) do { uint32_t g_ = spifhash_jenkins32(k, LEN, SEED), e_ = ref_lookup2_words(w, LEN, SEED); if (g_ != e_) FAIL("spifhash_jenkins32", "model:value", "constant length", "spifhash_jenkins32(key, " #LEN ", " #SEED ") called by name gives 0x%08x, reference 0x%08x", g_, e_); } while (0)
+      NW1(0, 0); NW1(1, 0); NW1(2, 0); NW1(3, 0); NW1(4, 0); NW1(0, 1); NW1(3, 0xffffffffu); NW1(sizeof K / sizeof(uint32_t), 0); }
+    free(k);
+}
 static void case_fn(uint64_t idx, void *ctx)
 {
-    mix_macro_check();
+    mix_macro_check(); named_calls_check();
     hc_t c; (void) ctx; decode(idx, &c);
     uint8_t ref[512]; fill(ref, c.len, c.pat);
     uint32_t seed = SEEDS[c.seed];
@@ -223,14 +239,14 @@ static void huge_case(uint64_t idx, void *ctx)
 }
 static void huge_level(void)
 {
-    g_huge_len = (1ULL << 32) + 8192;
+    g_huge_len = (1ULL << 32) + 16384;
     g_huge = mmap(NULL, g_huge_len, PROT_READ | PROT_WRITE, MAP_PRIVATE | MAP_ANONYMOUS | MAP_NORESERVE, -1, 0);
     if (g_huge == MAP_FAILED) { mc_info("huge", "a region of 4 GiB could not be mapped: the 2 GiB keys are skipped"); return; }
     static const uint64_t marks[] = { 0, 1ULL << 20, (1ULL << 31) - 16, 1ULL << 31, (1ULL << 31) + 16, (3ULL << 30) + 5, (1ULL << 32) - 32, (1ULL << 32) - 12, 1ULL << 32 };
     for (unsigned i = 0; i < sizeof marks / sizeof *marks; i++) for (int k = 0; k < 12; k++) g_huge[marks[i] + (uint64_t) k] = (uint8_t) (0x81 + 7 * k + (int) i);
-    static const uint64_t wq[] = { (1ULL << 29) - 1, 1ULL << 29, (1ULL << 29) + 5 }, wt[] = { (1ULL << 30) - 1, (1ULL << 30) + 1 };
+    static const uint64_t wq[] = { (1ULL << 29) - 1, 1ULL << 29, (1ULL << 29) + 5, (1ULL << 30) + 5 }, wt[] = { (1ULL << 30) - 1, (1ULL << 30) + 1 };     /* 2^30 + 5 words: the byte count no longer fits in 32 bits */
     static const uint64_t bq[] = { (1ULL << 31) + 5 }, bt[] = { (1ULL << 31) - 1, 1ULL << 31, (1ULL << 32) - 1 };
-    for (unsigned i = 0; i < 3; i++) HUGE_CASES[NHUGE++] = (huge_t) { 0, wq[i] };
+    for (unsigned i = 0; i < 4; i++) HUGE_CASES[NHUGE++] = (huge_t) { 0, wq[i] };
     for (int f = 1; f <= 5; f++) HUGE_CASES[NHUGE++] = (huge_t) { f, bq[0] };
     if (mc_thorough()) {
         for (unsigned i = 0; i < 2; i++) HUGE_CASES[NHUGE++] = (huge_t) { 0, wt[i] };
@@ -265,7 +281,7 @@ int main(int argc, char **argv)
     g_guard = mmap(NULL, (size_t) g_page * 3, PROT_READ | PROT_WRITE, MAP_PRIVATE | MAP_ANONYMOUS, -1, 0);
     mprotect(g_guard, (size_t) g_page, PROT_NONE); mprotect(g_guard + 2 * g_page, (size_t) g_page, PROT_NONE);
     if (mc_arg("only", NULL) && !strcmp(mc_arg("only", NULL), "huge")) {
-        mc_info("alphabet", "jenkins32 on keys of 2^29-1, 2^29, 2^29+5 words (thorough: also 2^30-1, 2^30+1) and the five byte-wise hashes on 2^31+5 bytes (thorough: also 2^31-1, 2^31, 2^32-1) against the references; the key is a lazily mapped region of zero bytes with marker bytes at both ends and around 2^31 and 2^32");
+        mc_info("alphabet", "jenkins32 on keys of 2^29-1, 2^29, 2^29+5, 2^30+5 words (thorough: also 2^30-1, 2^30+1) and the five byte-wise hashes on 2^31+5 bytes (thorough: also 2^31-1, 2^31, 2^32-1) against the references; the key is a lazily mapped region of zero bytes with marker bytes at both ends and around 2^31 and 2^32");
         huge_level();
         return mc_finish();
     }
